@@ -7,6 +7,19 @@ b="$1"
 GEN="MANIFEST.json lean/Driver.lean lean/EdzedModel.lean lean/EdzedProofs.lean lean/EdzedProps.lean lean/EdzedModel/Gen/Constants.lean"
 git merge --no-commit "$b" || true
 for f in $GEN; do git checkout --ours -- "$f" 2>/dev/null || true; done
+# known_findings.json: union of the entries by id
+if git diff --name-only --diff-filter=U | grep -q '^known_findings.json$'; then
+  git show HEAD:known_findings.json > /tmp/kf_ours.json
+  git show "$b":known_findings.json > /tmp/kf_theirs.json
+  python3 - <<'PY'
+import json
+a = json.load(open('/tmp/kf_ours.json')); b = json.load(open('/tmp/kf_theirs.json'))
+ids = {e['id'] for e in a}
+a += [e for e in b if e['id'] not in ids]
+json.dump(a, open('known_findings.json', 'w'), indent=1)
+PY
+  git add known_findings.json
+fi
 left=$(git diff --name-only --diff-filter=U | grep -v -F -e MANIFEST.json -e lean/Driver.lean -e lean/EdzedModel.lean -e lean/EdzedProofs.lean -e lean/EdzedProps.lean -e Gen/Constants.lean || true)
 if [ -n "$left" ]; then echo "UNRESOLVED: $left"; exit 1; fi
 python3 tools/gen_driver.py >/dev/null
